@@ -39,11 +39,12 @@ PROPS = {
         engines=[dict(engine="flood", pkg=NETC, test="TestVerifFlood", n_quick=400, n_thorough=4000)],
         corr_ops={"flood": ["run"]},
         facts=["route_stale_epoch", "route_stale_seq", "route_dedup_first", "route_relay_call", "route_self_filter",
-               "route_forwarder_rewrite", "route_seen_atomic"],
+               "route_forwarder_rewrite", "route_seen_atomic", "route_expire_writes"],
         trusted=["Go map/RWMutex semantics: the seen-table test-and-set is one critical section (fact route_seen_atomic); "
                  "concurrent deliveries of one update over two links are serialised by that lock (modelled as sequential steps)",
-                 "expiry of the seen table is not modelled: at-most-once per UpdateID is proved within the dedup window, "
-                 "and per (origin, epoch, sequence) for genuine updates by info_monotone/stale_is_noop"],
+                 "expiry of the seen table is modelled as an event that forgets any entries at any moment: at-most-once per UpdateID is "
+                 "proved within the dedup window (relay_at_most_once), and per (origin, epoch, sequence) for histories of genuine updates "
+                 "with arbitrary expiry (relay_at_most_once_despite_expiry_partial, info_monotone_despite_expiry); the harness does not advance the clock"],
         assumptions=["suspected-duplicate notices bypass the epoch test by design: for them at-most-once holds per UpdateID only"],
     ),
     "C07": dict(
